@@ -442,10 +442,16 @@ class Planner:
                 return None
             return self.call("ufl." + r.choice(["sign", "real", "imag", "conj"]), self.ref(s))
         if k == 25:
-            # a second occurrence of an existing sub-expression (DAG sharing)
-            if self.exprs:
+            # a second occurrence of an existing sub-expression (DAG sharing), or a
+            # labelled variable (Label counter)
+            if self.exprs and r.random() < 0.5:
                 return r.choice(self.exprs)
-            return a
+            va = self.call("ufl.variable", A)
+            if va is None:
+                return a
+            if r.random() < 0.5:
+                return self.call("operator.add", self.ref(va), self.ref(va))
+            return va
         if k == 26:
             b = self.expr(M, depth - 1)
             if b is None or self.shape(b) != sh or not sh:
